@@ -4,6 +4,8 @@
                                           model of the code for cells is the regenerated Gen.tagTable
     tag <rune>*                        → "<model>\t-"       rendering of parseTag (fixed code) + ws flag
     tablesum                           → "<counts of Gen.tagTable>\t-"
+    stype <fty>                        → "<schema type of the field type in the static table Gen.tagFacts>\t-"
+                                          ("-" for the field types no rule switch applies to)
     genv <root>                        → "<type graph of the row in Gen.graphTable>\t-"
     gbuild <root>                      → "<model: does FromStruct return>\tbuilt"
     graph <root> <how> <value tokens>  → "<Graph.Code.check>\t<Graph.Spec.vStruct>"
@@ -16,6 +18,8 @@ import Gozod.Model.Tags
 import Gozod.Gen.TagTable
 import Gozod.Model.TagGraph
 import Gozod.Model.TagRules
+import Gozod.Model.TagSwitch
+import Gozod.Gen.TagSwitches
 import Gozod.Gen.TagGraph
 namespace Gozod.Drv.C06
 open Gozod Gozod.Tags
@@ -102,6 +106,10 @@ def handle : List String → String
     | some t => tagObs false t ++ "\t-"
     | none => "bad-op"
   | ["tablesum"] => tableSum ++ "\t-"
+  | ["stype", fty] =>
+    match FTy.ofString? fty with
+    | some t => Sw.tyString Gen.tagFacts t ++ "\t-"
+    | none => "bad-op"
   | _ => "bad-op"
 
 end Gozod.Drv.C06
